@@ -2,8 +2,13 @@
 """C11 correspondence run: real rv::dist::Mixture (harness ops `mix.*`, harness/src/manual_c11.rs) vs the hand model
 Hand.Mixture on Float (driver entries `mix.*`, lean/RvModel/Hand/DispatchC11.lean) on random cases, plus direct checks
 of the implementation's answers against the statement of the property (see props/C11_notes.md).
-Stand-alone helper (not imported by ./check):
-    python3 props/cases_c11.py [<rvharness> <rvdrv> [seed] [n]]      # 39 lines per unit of n; n = 1000 -> 39000 cases"""
+Run by props/C11.py (and stand-alone):
+    python3 props/cases_c11.py [<rvharness> <rvdrv> [seed] [n]]      # part 1: 39 lines per unit of n
+Part 2 (regression-oriented, `n2 = max(40, n // 2)` units): components with parameter-dependent supports (Pareto, Uniform,
+Categorical of different sizes), the quadrature entropy of Mixture<Gaussian> (model with the implementation's bounds,
+and an independent accurate quadrature of -∫ f ln f), f32 moments (Laplace / Uniform / Exponential components), and
+setter histories (cache / state machine).  Every failure is printed as
+    FAIL<TAB>class<TAB>input line<TAB>implementation answer<TAB>expected"""
 import math, random, struct, subprocess, sys, collections
 
 import os
@@ -14,6 +19,8 @@ SEED = int(sys.argv[3]) if len(sys.argv) > 3 else 11
 N = int(sys.argv[4]) if len(sys.argv) > 4 else 600
 rng = random.Random(SEED)
 NAN, INF = float('nan'), float('inf')
+# |Mixture<Gaussian>::entropy() - (-∫ f ln f)|: bound chosen from the baseline distribution of the unchanged code (see props/C11_notes.md)
+ENTROPY_TOL = 6e-2
 
 
 def fb(x):
@@ -356,13 +363,361 @@ for (line, cls, meta), a, b in zip(cases, impl, model):
     if a in ('PANIC', 'HANG', 'NOOP', 'BAD') or b.startswith('BAD') or b == 'NOOP':
         findings['abnormal'].append((line, a, b))
 
-print('cases:', len(cases))
+
+# =========================================================================================== part 2
+N2 = max(40, N // 2)
+fails2 = []          # (class, input line, impl answer, expected)
+base_err = []        # |entropy() - accurate quadrature| on this run, configurations inside the domain of the bound
+base_err_out = []    # … outside (recorded, not judged: the unchanged 16-point rule is off by up to 0.7 there)
+
+
+def run(binary, lines_):
+    if not lines_:
+        return []
+    out = subprocess.run([binary], input='\n'.join(lines_) + '\n', capture_output=True, text=True).stdout.split('\n')[:-1]
+    return out + ['DIED'] * (len(lines_) - len(out))
+
+
+def f32(x):
+    """round a binary64 to binary32 (ties to even), as Rust `as f32`"""
+    if math.isnan(x) or math.isinf(x):
+        return x
+    try:
+        return struct.unpack('<f', struct.pack('<f', x))[0]
+    except OverflowError:
+        return math.copysign(INF, x)
+
+
+def opt_tokens(toks, i):
+    """parse `N` | `S x…` at position i -> (value or None, next index)"""
+    if toks[i] == 'N':
+        return None, i + 1
+    return tf(toks[i + 1]), i + 2
+
+
+def opt_list(toks, i):
+    n = int(toks[i][1:])
+    i += 1
+    out = []
+    for _ in range(n):
+        v, i = opt_tokens(toks, i)
+        out.append(v)
+    return out, i
+
+
+def enc_opt(v):
+    return 'N' if v is None else 'S ' + fb(v)
+
+
+# ---- Gauss-Legendre nodes for the independent reference quadrature
+def _gl(n):
+    xs, ws = [], []
+    for i in range(n):
+        x = math.cos(math.pi * (i + 0.75) / (n + 0.5))
+        for _ in range(100):
+            p0, p1 = 1.0, x
+            for k in range(2, n + 1):
+                p0, p1 = p1, ((2 * k - 1) * x * p1 - (k - 1) * p0) / k
+            dp = n * (x * p1 - p0) / (x * x - 1)
+            dx = p1 / dp
+            x -= dx
+            if abs(dx) < 1e-16:
+                break
+        xs.append(x)
+        ws.append(2 / ((1 - x * x) * dp * dp))
+    return xs, ws
+
+
+_GLX, _GLW = _gl(20)
+
+
+def mix_lnf(ws, gs, x):
+    return ref_lse([(math.log(w) if w > 0 else -INF) + lnnorm(x, m, s) for w, (m, s) in zip(ws, gs)])
+
+
+def ref_entropy(ws, gs, refine=1):
+    """-∫ f ln f of a Gaussian mixture: 20-point Gauss-Legendre on a partition adapted to every component"""
+    ts = [-40, -25, -16, -12, -9, -7, -5.5, -4.5, -3.5, -2.75, -2, -1.5, -1, -0.5, 0, 0.5, 1, 1.5, 2, 2.75, 3.5, 4.5, 5.5, 7, 9,
+          12, 16, 25, 40]
+    cuts = sorted({m + s * t for (m, s) in gs for t in ts})
+    tot = 0.0
+    for a, b in zip(cuts, cuts[1:]):
+        for j in range(refine):
+            lo = a + (b - a) * j / refine
+            hi = a + (b - a) * (j + 1) / refine
+            h, c = (hi - lo) / 2, (hi + lo) / 2
+            acc = 0.0
+            for x, w in zip(_GLX, _GLW):
+                l = mix_lnf(ws, gs, c + h * x)
+                if l > -745:
+                    acc += w * math.exp(l) * l
+            tot += h * acc
+    return -tot
+
+
+def pos_weights(k, allow_zero=True):
+    raw = [rng.random() + 0.02 for _ in range(k)]
+    if allow_zero and k > 1 and rng.random() < 0.2:
+        raw[rng.randrange(k)] = 0.0
+    t = math.fsum(raw)
+    return [r / t for r in raw]
+
+
+# ------------------------------------------------------------------------------ (A) parameter-dependent supports
+def pareto_pdf(sh, sc, x):
+    return sh * sc ** sh / x ** (sh + 1) if (math.isfinite(x) and x >= sc) else 0.0
+
+
+sup_cases = []     # (line, class, expected-from-the-definition or None)
+for _ in range(N2):
+    k = rng.choice([1, 2, 2, 3, 5])
+    ws = pos_weights(k)
+    # Pareto: distinct scales; x between two scales is supported by some components only
+    scs = sorted(10 ** rng.uniform(-1, 1) for _ in range(k))
+    shs = [10 ** rng.uniform(-0.5, 1) for _ in range(k)]
+    P = ' '.join(['L%d' % k] + [fb(a) + ' ' + fb(b) for a, b in zip(shs, scs)])
+    xs = [scs[0] * rng.uniform(0.1, 0.99), scs[-1] * rng.uniform(1.01, 30), rng.choice(scs), nextafter(rng.choice(scs), -INF)]
+    xs += [(a + b) / 2 for a, b in zip(scs, scs[1:])]
+    if rng.random() < 0.1:
+        xs.append(rng.choice([0.0, -1.0, INF, NAN]))
+    for x in xs:
+        exp = sum(w * pareto_pdf(sh, sc, x) for w, sh, sc in zip(ws, shs, scs)) if x == x else 0.0
+        for q in ['pdf', 'ln_pdf', 'f', 'ln_f', 'cdf', 'supports']:
+            sup_cases.append((f'mix.pareto.{q} - {L(ws)} {P} {fb(x)}', 'pareto.' + q, exp if q == 'pdf' else None))
+    sup_cases.append((f'mix.pareto.mean - {L(ws)} {P}', 'pareto.mean', None))
+    sup_cases.append((f'mix.pareto.variance - {L(ws)} {P}', 'pareto.variance', None))
+    # Uniform: disjoint, nested or overlapping intervals
+    ivs = []
+    for i in range(k):
+        a = rng.uniform(-5, 5) if rng.random() < 0.5 else float(3 * i)
+        ivs.append((a, a + 10 ** rng.uniform(-2, 1)))
+    U = ' '.join(['L%d' % k] + [fb(a) + ' ' + fb(b) for a, b in ivs])
+    a0, b0 = rng.choice(ivs)
+    xs = [rng.uniform(a0, b0), a0, b0, nextafter(a0, -INF), nextafter(b0, INF), rng.uniform(-8, 20)]
+    for x in xs:
+        exp = sum(w / (b - a) for w, (a, b) in zip(ws, ivs) if a <= x <= b)
+        for q in ['pdf', 'ln_pdf', 'f', 'ln_f', 'cdf', 'supports']:
+            sup_cases.append((f'mix.unif.{q} - {L(ws)} {U} {fb(x)}', 'unif.' + q, exp if q == 'pdf' else None))
+    sup_cases.append((f'mix.unif.mean - {L(ws)} {U}', 'unif.mean', None))
+    sup_cases.append((f'mix.unif.variance - {L(ws)} {U}', 'unif.variance', None))
+    # Categorical components with different numbers of categories
+    ns = [rng.choice([1, 2, 3, 4, 6]) for _ in range(k)]
+    lnws = []
+    for n_ in ns:
+        raw = [rng.random() if rng.random() < 0.85 else 0.0 for _ in range(n_)]
+        if sum(raw) == 0:
+            raw[0] = 1.0
+        t = sum(raw)
+        lnws.append([math.log(r / t) if r > 0 else -INF for r in raw])
+    C = ' '.join(['L%d' % k] + [L(lw) for lw in lnws])
+    for x in range(0, max(ns) + 2):
+        exp = sum(w * math.exp(lw[x]) for w, lw in zip(ws, lnws) if x < len(lw))
+        for q in ['pmf', 'ln_pmf', 'supports']:
+            sup_cases.append((f'mix.cat.{q} - {L(ws)} {C} {x}', 'cat.' + q, exp if q == 'pmf' else None))
+        if x < min(ns):       # ln_f / f / cdf index every component: only inside every support
+            for q in ['ln_f', 'f', 'cdf']:
+                sup_cases.append((f'mix.cat.{q} - {L(ws)} {C} {x}', 'cat.' + q, None))
+
+sl = [c[0] for c in sup_cases]
+si, sm = run(H, sl), run(D, sl)
+for (line, cls, exp), a, b in zip(sup_cases, si, sm):
+    stats[cls] += 1
+    q = cls.split('.')[1]
+    if q == 'supports':
+        ok = a == b
+    elif q in ('mean', 'variance'):
+        ok = cmp(a, b, 1e-9, 1e-300)
+    elif q in ('f', 'pdf', 'pmf', 'cdf'):
+        ok = cmp(a, b, 1e-9, 1e-300)
+    else:
+        ok = cmp(a, b, 1e-11, 1e-300) or cmp(a, b, 1e-11, 1e-14)
+    if not ok:
+        fails2.append((cls, line, a, b))
+    elif exp is not None:
+        # the definition itself: pdf/pmf(x) = Σ_{k : component k supports x} w_k f_k(x), computed from the parameters
+        stats[cls + '.definition'] += 1
+        if not (a.startswith('x') and close(tf(a), exp, 1e-9, 1e-300)):
+            fails2.append((cls + '.definition', line, a, fb(exp)))
+
+# ------------------------------------------------------------------------------ (B) quadrature entropy of Mixture<Gaussian>
+ent_cfg = []          # (weights, components, in_domain)
+for _ in range(N2):
+    k = rng.choice([1, 2, 2, 2, 3, 3, 4, 6])
+    style = rng.random()
+    gs = []
+    for i in range(k):
+        if style < 0.5:      # the domain of the accuracy bound: modes in [-3, 3], widths within a factor 10
+            gs.append((rng.uniform(-3, 3), 10 ** rng.uniform(-0.5, 0.5)))
+        elif style < 0.7:    # unequal widths up to a factor 50
+            gs.append((rng.uniform(-3, 3), 10 ** rng.uniform(-1, 0.7)))
+        elif style < 0.85:
+            gs.append((rng.uniform(-20, 20), 10 ** rng.uniform(-0.5, 0.5)))
+        else:                # widely separated narrow components
+            gs.append((rng.uniform(-1, 1) * 10 ** rng.uniform(0, 3), 10 ** rng.uniform(-1, 1)))
+    ent_cfg.append((pos_weights(k, allow_zero=False), gs, style < 0.5))
+ent_cfg += [([0.5, 0.5], [(0.0, 1.0), (0.8, 0.2)], False), ([0.5, 0.5], [(0.0, 3.0), (2.0, 0.5)], True),
+            ([0.5, 0.5], [(-2.0, 1.0), (2.0, 1.0)], True), ([1.0], [(3.0, 2.0)], True)]
+cfg_tok = [f'{L(ws)} {G(gs)}' for ws, gs, _d in ent_cfg]
+qb_i = run(H, ['mix.gauss.quad_bounds - ' + c for c in cfg_tok])
+qb_m = run(D, ['mix.gauss.quad_bounds - ' + c for c in cfg_tok])
+en_i = run(H, ['mix.gauss.entropy - ' + c for c in cfg_tok])
+en_m = run(D, [f'mix.gauss.entropy_b - {c} {q}' if len(q.split()) == 2 else 'mix.gauss.entropy - ' + c
+               for c, q in zip(cfg_tok, qb_i)])
+for (ws, gs, dom), c, qi, qm, ei, em in zip(ent_cfg, cfg_tok, qb_i, qb_m, en_i, en_m):
+    stats['gauss.quad_bounds'] += 1
+    stats['gauss.entropy'] += 1
+    smax = max(s for _, s in gs)
+    # the bounds go through erf_inv at ±(1 - 1e-12): rv's and the model's differ by ~6e-4 standard deviations
+    if not (len(qi.split()) == 2 and len(qm.split()) == 2 and
+            all(abs(tf(x) - tf(y)) <= 3e-3 * smax + 1e-9 * abs(tf(y)) for x, y in zip(qi.split(), qm.split()))):
+        fails2.append(('gauss.quad_bounds', 'mix.gauss.quad_bounds - ' + c, qi, qm))
+    # model of the whole quadrature (break points, 16-point rule) fed with the implementation's bounds
+    if not cmp(ei, em, 1e-10, 1e-12):
+        fails2.append(('gauss.entropy', f'mix.gauss.entropy - {c}', ei, em + '   (model mix.gauss.entropy_b with bounds ' + qi + ')'))
+    # accuracy: entropy() vs an independent accurate quadrature of -∫ f ln f
+    if ei.startswith('x') and len(ei) == 17:
+        ref = ref_entropy(ws, gs)
+        err = abs(tf(ei) - ref)
+        (base_err if dom else base_err_out).append(err)
+        stats['gauss.entropy.reference' if dom else 'gauss.entropy.reference(recorded only)'] += 1
+        if dom and not err <= ENTROPY_TOL:
+            fails2.append(('gauss.entropy.reference', f'mix.gauss.entropy - {c}', ei, fb(ref) + f'   (-∫ f ln f = {ref!r}, |error| = {err:.3e} > {ENTROPY_TOL})'))
+
+# ------------------------------------------------------------------------------ (C) f32 moments
+mom_cases = []
+for _ in range(N2):
+    k = rng.choice([1, 1, 2, 3, 8])
+    ws = pos_weights(k)
+    fam = rng.choice(['laplace', 'laplace', 'unif', 'expon'])
+    big = rng.choice([-1, 1]) * 10 ** rng.uniform(0, 5)
+    if fam == 'laplace':
+        pars = [(big + rng.uniform(-3, 3), 10 ** rng.uniform(-1, 1)) for _ in range(k)]
+        P = ' '.join(['L%d' % k] + [fb(a) + ' ' + fb(b) for a, b in pars])
+    elif fam == 'unif':
+        pars = [(big + rng.uniform(-3, 3), 10 ** rng.uniform(-1, 1)) for _ in range(k)]
+        P = ' '.join(['L%d' % k] + [fb(a) + ' ' + fb(a + d) for a, d in pars])
+    else:
+        pars = [10 ** rng.uniform(-4, 2) for _ in range(k)]
+        P = L(pars)
+    mom_cases.append(f'mix.f32.moments - {fam} {L(ws)} {P}')
+mom_cases.append(f'mix.f32.moments - laplace {L([1.0])} L1 {fb(1000.1)} {fb(math.sqrt(0.5))}')
+mi = run(H, mom_cases)
+stage2, parsed = [], []
+for line, a in zip(mom_cases, mi):
+    t = a.split()
+    try:
+        m32, i = opt_tokens(t, 0)
+        v32, i = opt_tokens(t, i)
+        cm, i = opt_list(t, i)
+        cv, i = opt_list(t, i)
+    except Exception:
+        fails2.append(('f32.moments', line, a, 'parsable answer'))
+        parsed.append(None)
+        stage2.append('mix.moments - L0 L0 L0')
+        continue
+    ws = [tf(x) for x in line.split()[4:4 + int(line.split()[3][1:])]]
+    parsed.append((m32, v32, cm, cv, ws))
+    stage2.append(f'mix.moments - {L(ws)} ' + ' '.join(['L%d' % len(cm)] + [enc_opt(x) for x in cm]) + ' ' +
+                  ' '.join(['L%d' % len(cv)] + [enc_opt(x) for x in cv]))
+mm = run(D, stage2)
+for line, a, pr, b in zip(mom_cases, mi, parsed, mm):
+    if pr is None:
+        continue
+    stats['f32.moments'] += 1
+    m32, v32, cm, cv, ws = pr
+    t = b.split()
+    em, i = opt_tokens(t, 0)
+    ev, i = opt_tokens(t, i)
+    # the f64 model at the exactly widened f32 component moments, rounded to f32
+    scale = sum(w * ((m or 0.0) ** 2 + abs(v or 0.0)) for w, m, v in zip(ws, cm, cv))
+
+    def agree(got, want, sc):
+        if (got is None) != (want is None):
+            return False
+        if got is None:
+            return True
+        w32 = f32(want)
+        if got == w32 or (math.isnan(got) and math.isnan(w32)):
+            return True
+        if math.isinf(got) or math.isinf(w32):
+            return False
+        return abs(got - want) <= 1e-6 * abs(want) + 1e-14 * sc
+    if not agree(m32, em, max(abs(x or 0.0) for x in cm)):
+        fails2.append(('f32.mean', line, a, 'mean ' + (enc_opt(f32(em)) if em is not None else 'N') + '  (model mix.moments: ' + b + ')'))
+    if not agree(v32, ev, scale):
+        fails2.append(('f32.variance', line, a, 'variance ' + (enc_opt(f32(ev)) if ev is not None else 'N') + '  (model mix.moments: ' + b + ')'))
+
+# ------------------------------------------------------------------------------ (D) setter histories
+hist_cases = []
+for _ in range(N2):
+    k = rng.choice([1, 2, 3, 5, 10])
+    w, gs = gen_weights(k), gen_gauss(k)
+    gs0 = gs
+    steps = ['q ' + fb(gen_x(gs))]
+    kk = k
+    for _s in range(rng.randrange(3, 12)):
+        r = rng.random()
+        if r < 0.25:
+            w1 = gen_weights(kk) if rng.random() < 0.75 else bad_weights(rng.choice([kk, kk, kk + 1]))
+            steps.append('ws ' + L(w1))
+        elif r < 0.35:
+            steps.append('wu ' + L(gen_weights(kk)))
+        elif r < 0.45:
+            k2 = kk if rng.random() < 0.7 else rng.choice([kk + 1, max(1, kk - 1)])
+            gs = gen_gauss(k2) if k2 != kk else gen_gauss(kk)
+            steps.append('cs ' + G(gs))
+        elif r < 0.5:
+            kk = rng.choice([kk, kk, kk + 1, max(1, kk - 1)])
+            gs = gen_gauss(kk)
+            steps.append('cu ' + G(gs))
+            steps.append('wu ' + L(gen_weights(kk)))
+        elif r < 0.58:
+            steps.append('clone')
+        elif r < 0.66:
+            steps.append('eq')
+        elif r < 0.76:
+            steps.append('lw')
+        elif r < 0.84:
+            steps.append('f ' + fb(gen_x(gs)))
+        else:
+            steps.append('q ' + fb(gen_x(gs)))
+    steps += ['q ' + fb(gen_x(gs)), 'lw', 'eq']
+    nsteps = sum(1 for s_ in steps)
+    hist_cases.append(f'mix.hist - {L(w)} {G(gs0)} {nsteps} ' + ' '.join(steps))
+hi = run(H, hist_cases)
+for line, a in zip(hist_cases, hi):
+    stats['hist'] += 1
+    bad = None
+    if a in ('PANIC', 'HANG', 'DIED', 'NOOP') or a.startswith('BAD'):
+        bad = a
+    else:
+        for item in a.split(' | '):
+            t = item.split()
+            if len(t) == 1:
+                continue                      # status of a checked setter
+            half = len(t) // 2
+            if len(t) % 2 or t[:half] != t[half:]:
+                bad = item
+                break
+    if bad is not None:
+        fails2.append(('hist', line, a, 'every query of the live mixture equal to a fresh mixture with the same parameters; first difference: ' + bad))
+
+print('cases:', len(cases) + len(sl) + 4 * len(ent_cfg) + 2 * len(mom_cases) + len(hist_cases))
 for c in sorted(stats):
     print(f'  {c:40s} {stats[c]:6d}   bit-different: {bitdiff.get(c, 0)}')
-print('model/implementation mismatches beyond tolerance:', len(fails))
+print('model/implementation mismatches beyond tolerance:', len(fails) + len(fails2))
 for f in fails[:15]:
     print('  MISMATCH', f[0], '\n     ', f[1][:300], '\n      impl ', f[2][:200], '\n      model', f[3][:200])
 for k, v in findings.items():
     print('finding', k, len(v))
     for it in v[:4]:
         print('   ', str(it)[:400])
+for f in fails:
+    print('FAIL\t%s\t%s\t%s\t%s' % (f[0], f[1], f[2], f[3]))
+for f in fails2:
+    print('FAIL\t%s\t%s\t%s\t%s' % f)
+for name, be in (('inside the domain of the bound', sorted(base_err)), ('outside (recorded only)', sorted(base_err_out))):
+    if be:
+        q = lambda p: be[min(len(be) - 1, int(p * len(be)))]
+        print('entropy baseline |entropy() - ref| %s: n=%d median=%.2e p90=%.2e p99=%.2e max=%.2e (tolerance %.1e)'
+              % (name, len(be), q(0.5), q(0.9), q(0.99), be[-1], ENTROPY_TOL))
